@@ -1252,12 +1252,13 @@ fn oracle_combo<C: AnsCombo>(rng: &mut Rng, w: u32, s: u32, bps: &[(u32, Vec<u32
 
         // ---- C09: bounded backend, write failure at the k-th word ----
         {
-            let cap = (rng.next() % 6) as usize;
+            let cap = (rng.next() % 9) as usize;
             let mut enc: AnsCoder<C::W, C::S, Cursor<C::W, Vec<C::W>>> =
                 AnsCoder::from_raw_parts(Cursor::new_at_write_beginning(vec![from_u128::<C::W>(0); cap]), from_u128::<C::S>(0));
             let mut pushed: Vec<(usize, usize)> = Vec::new();
             let mut d9 = format!("ansc {:x} {:x} {:x}", w, s, cap);
             let mut failures = 0;
+            let mut export_checked = 0;
             for _ in 0..60 {
                 let mi = (rng.next() % 3) as usize;
                 let (b, p, cdf) = models[mi].clone();
@@ -1266,6 +1267,40 @@ fn oracle_combo<C: AnsCombo>(rng: &mut Rng, w: u32, s: u32, bps: &[(u32, Vec<u32
                 let o = C::enc(&mut enc, b, p, Some((cdf[sym], cdf[sym + 1] - cdf[sym]))).unwrap();
                 d9.push_str(&format!(" | enc {:x} {:x} {:x} {:x}", b, p, cdf[sym], cdf[sym + 1] - cdf[sym]));
                 rep.eval("C09");
+                // C01 on a bounded backend: exporting (into_compressed / into_binary) either equals what the same
+                // coder exports into an unbounded Vec, or is refused because the words do not fit - never a
+                // silently truncated message (checked after each of the first 12 pushes; the capacities 0..8
+                // place the free space below, at and above the number of state words to append)
+                if export_checked < 12 {
+                    export_checked += 1;
+                    let (cur, st) = enc.clone().into_raw_parts();
+                    let held: Vec<C::W> = cur.buf()[..cur.pos()].to_vec();
+                    let reference: Vec<u128> = AnsCoder::<C::W, C::S>::from_raw_parts(held.clone(), st).into_compressed().unwrap().iter().map(|&w| to_u128(w)).collect();
+                    let got: Option<Vec<u128>> = enc.clone().into_compressed().ok().map(|c| { let l = c.pos(); c.buf()[..l].iter().map(|&w| to_u128(w)).collect() });
+                    rep.eval("C01");
+                    rep.eval("C09");
+                    rep.count(if got.is_some() { "C01.bounded_export_ok" } else { "C01.bounded_export_refused" });
+                    let fits = reference.len() <= cap;
+                    let bad = match &got { Some(g) => *g != reference, None => fits };
+                    if bad {
+                        let msg = format!("{} | export => {} on a buffer of {} words; the same coder exports {} into a Vec", d9,
+                            got.clone().map(show_list).unwrap_or("refused (backend full)".into()), cap, show_list(reference.clone()));
+                        rep.fail("C01", msg.clone());
+                        rep.fail("C09", msg);
+                    }
+                    // raw binary export: same rule whenever the unbounded export succeeds
+                    if let Ok(refb) = AnsCoder::<C::W, C::S>::from_raw_parts(held, st).into_binary() {
+                        let refb: Vec<u128> = refb.iter().map(|&w| to_u128(w)).collect();
+                        let gotb: Option<Vec<u128>> = enc.clone().into_binary().ok().map(|c| { let l = c.pos(); c.buf()[..l].iter().map(|&w| to_u128(w)).collect() });
+                        rep.eval("C04");
+                        let badb = match &gotb { Some(g) => *g != refb, None => refb.len() <= cap };
+                        if badb {
+                            rep.fail("C04", format!("{} | intob => {} on a buffer of {} words; the same coder exports {} into a Vec", d9,
+                                gotb.map(show_list).unwrap_or("refused".into()), cap, show_list(refb)));
+                        }
+                    }
+                }
+
                 if o == "ok" {
                     pushed.push((mi, sym));
                 } else {
